@@ -28,3 +28,15 @@ Example C08_source_runs :
   (match go_newInternalConfig ex_ace ex_ip6 ex_psl ex_good with inl ic => go_newConfig ic = new_config ic | inr _ => False end) /\
   (match go_newInternalConfig ex_ace ex_ip6 ex_psl ex_bad with inl _ => False | inr e => flatten e = violations ex_ace ex_ip6 ex_psl ex_bad end).
 Proof. split; vm_compute; reflexivity. Qed.
+
+(* ---- Reconfigure itself, translated from middleware.go ---- *)
+Require Import Model.MwRt Gen.MwSrc Proofs.MwSrcP Proofs.SrcXferP.
+
+Theorem C08_source_Reconfigure_rejected_is_noop : forall ace ip6 psl st c e,
+  go_newInternalConfig ace ip6 psl c = inr e -> go_Reconfigure ace ip6 psl st (Some c) = (st, Some e).
+Proof. exact go_Reconfigure_rejected. Qed.
+Print Assumptions C08_source_Reconfigure_rejected_is_noop.
+
+Example C08_source_rejected_runs :
+  forall st, fst (go_Reconfigure ex_ace ex_ip6 ex_psl st (Some ex_bad)) = st.
+Proof. intros st. rewrite (go_Reconfigure_rejected ex_ace ex_ip6 ex_psl st ex_bad (match go_newInternalConfig ex_ace ex_ip6 ex_psl ex_bad with inr e => e | inl _ => Join [] end)); [reflexivity|]. vm_compute. reflexivity. Qed.
